@@ -317,24 +317,57 @@ func runC11(c *Ctx) {
 		dataF := w.Field("proto", "ChannelData", "Data")
 		c.Anchor("C11.3", "Encode padding")
 		// the payload append
-		var payload ssa.Instruction
-		w.eachInstr(enc, func(in ssa.Instruction) {
-			st, ok := in.(*ssa.Store)
-			if !ok {
-				return
-			}
-			fa, ok := st.Addr.(*ssa.FieldAddr)
-			if !ok || fieldOf(fa) != rawF {
-				return
-			}
-			if call, isC := st.Val.(*ssa.Call); isC {
-				if b, isB := call.Call.Value.(*ssa.Builtin); isB && b.Name() == "append" && len(call.Call.Args) == 2 {
-					if _, f, isL := fieldLoad(call.Call.Args[1]); isL && f == dataF {
-						payload = in
+		payloadIn := func(g *ssa.Function) ssa.Instruction {
+			var payload ssa.Instruction
+			w.eachInstr(g, func(in ssa.Instruction) {
+				st, ok := in.(*ssa.Store)
+				if !ok {
+					return
+				}
+				fa, ok := st.Addr.(*ssa.FieldAddr)
+				if !ok || fieldOf(fa) != rawF {
+					return
+				}
+				if call, isC := st.Val.(*ssa.Call); isC {
+					if b, isB := call.Call.Value.(*ssa.Builtin); isB && b.Name() == "append" && len(call.Call.Args) == 2 {
+						if _, f, isL := fieldLoad(call.Call.Args[1]); isL && f == dataF {
+							payload = in
+						}
 					}
 				}
-			}
-		})
+			})
+			return payload
+		}
+		payload := payloadIn(enc)
+		if payload == nil {
+			// ... or Encode begins with a call of a sibling method on the same receiver that ends
+			// with the payload append (the unpadded encoder factored out): the call stands for it
+			w.eachInstr(enc, func(in ssa.Instruction) {
+				call, ok := in.(*ssa.Call)
+				if !ok || payload != nil {
+					return
+				}
+				h := call.Call.StaticCallee()
+				if h == nil || !w.IsMod[h] || len(call.Call.Args) == 0 || call.Call.Args[0] != ssa.Value(enc.Params[0]) || in.Block() != enc.Blocks[0] {
+					return
+				}
+				hp := payloadIn(h)
+				if hp == nil {
+					return
+				}
+				last := true
+				w.eachInstr(h, func(in2 ssa.Instruction) {
+					if st, ok := in2.(*ssa.Store); ok && in2 != hp && instrReaches(hp, in2) {
+						if fa, ok := st.Addr.(*ssa.FieldAddr); ok && fieldOf(fa) == rawF {
+							last = false
+						}
+					}
+				})
+				if last {
+					payload = in
+				}
+			})
+		}
 		bad := ""
 		nPad := 0
 		if payload == nil {
